@@ -19,7 +19,7 @@ LEVEL = "exploration"
 RULE = ("every built-in data command x 1..5 inputs x rank 1-3 shapes x int/float dtypes x mask styles (nomask, all-false, random, "
         "single cell, all-but-one, all) x 3 payloads under the mask; CSV cases vary the number stored in missing cells; distinct by "
         "(command, n, rank, dtypes, mask classes, params)")
-REQUIRED_COUNTERS = ["netcdf_marker_variation_checks", "mask_superset_checks", "mask_exact_checks", "payload_variation_checks", "masked_input_cells", "csv_payload_checks", "follow_up_mask_checks", "netcdf_fill_mask_checks", "large_rasters_checked", "csv_rereads_with_other_marker", "large_files_read", "later_same_family_checks", "printed_fields_compared", "netcdf_write_read_back_checks"]
+REQUIRED_COUNTERS = ["netcdf_joint_write_then_reuse_checks", "netcdf_marker_variation_checks", "mask_superset_checks", "mask_exact_checks", "payload_variation_checks", "masked_input_cells", "csv_payload_checks", "follow_up_mask_checks", "netcdf_fill_mask_checks", "large_rasters_checked", "csv_rereads_with_other_marker", "large_files_read", "later_same_family_checks", "printed_fields_compared", "netcdf_write_read_back_checks"]
 ASSUMPTIONS = ["what is stored under result masks and fill values are not judged", "NaN/inf and zero-length arrays are never generated",
                "cases where the reference is undefined (constant arrays, equal thresholds, zero weight sums) only get check (a) and (c)"]
 
@@ -194,6 +194,21 @@ def run_ncread(ctx, case):
                     ctx.fail("ncread:derived-result-written-and-read-back:%s" % ("valid-cell-missing" if gm[i] else "missing-cell-present"),
                              {"cell": i, "value_there": float(numpy.ma.getdata(out.value)[i]), "source_marker": mv})
                     return
+    if out.ok and isinstance(out.value, numpy.ndarray) and prog.commands["X"].is_finished and len(case["values"]) >= 3:
+        # the read and another field that is missing elsewhere are written to one file; the read is then used again: it is still
+        # missing exactly where it was (writing several fields together makes none of them lose cells)
+        ctx.count("netcdf_joint_write_then_reuse_checks")
+        xm0 = numpy.ma.getmaskarray(prog.commands["X"]._result).copy()
+        other = numpy.ma.array(numpy.arange(n) * 1.5, mask=[(i_ % 3 == 1) for i_ in range(n)])
+        arr.standin(prog, "Other", other, fuzzy=False)
+        w2 = arr.invoke(prog, "EEMSWrite", "W2", {"OutFileName": os.path.join(d, "joint.nc"), "OutFieldNames": ["X", "Other"], "DimensionFileName": path, "DimensionFieldName": "var"})
+        again = arr.invoke(prog, "Copy", "XAgain", {"InFieldName": "X"})
+        if w2.ok and again.ok:
+            gm = numpy.ma.getmaskarray(again.value)
+            if not numpy.array_equal(gm, xm0):
+                i = int(numpy.nonzero(gm != xm0)[0][0])
+                ctx.fail("ncread:field-written-next-to-another-field:%s-afterwards" % ("valid-cell-missing" if gm[i] else "missing-cell-present"), {"cell": i, "mask_before": xm0.tolist(), "mask_after": gm.tolist()})
+                return
     if out.ok and isinstance(out.value, numpy.ndarray) and marking == "_FillValue" and any((x == mv) and not f for x, f in zip(case["values"], case["fill"])):
         # the same table with another number in the cells the MissingValue argument declares missing (54321 instead of the
         # marker used above), read with that number as MissingValue: everything computed from the read is the same
